@@ -24,8 +24,14 @@ def run_property(pid, tier="quick", repo="/repo", quiet=False, evidence=True, ou
         from .model import Program
         prog = Program(repo)
         mod.check(prog, run)
-        if tier == "thorough" and hasattr(mod, "thorough"):
-            mod.thorough(prog, run)
+        if tier == "thorough":
+            if hasattr(mod, "thorough"):
+                mod.thorough(prog, run)
+            from . import selftest
+            if selftest.has_variants(pid):
+                sc = selftest.main(pid, repo, run=run, verbose=not quiet)
+                if sc != 0:
+                    raise AnalysisError("selftest-failed", repr(run.extra.get("selftest")))
         code = run.finish()
     except AnalysisError as e:
         code = run.finish(error=e)
@@ -66,12 +72,6 @@ def main(argv=None):
         from . import selftest
         return selftest.main(pid, a.repo)
     code, run = run_property(pid, a.tier, a.repo, evidence=not a.no_evidence)
-    if a.tier == "thorough" and code == 0:
-        from . import selftest
-        if selftest.has_variants(pid):
-            sc = selftest.main(pid, a.repo, run=run)
-            if sc != 0:
-                return sc
     return code
 
 
